@@ -97,6 +97,7 @@ func c38(r *core.Report, p *core.Prog, thorough bool) {
 	c38Handlers(r, p)
 	c38WaitQuorum(r, p)
 	c38PrevSet(r, p)
+	c38FinalSet(r, p)
 }
 
 func c38SetPhase(r *core.Report, p *core.Prog, sp, restart *ssa.Function, phases map[int64]string) {
@@ -826,4 +827,103 @@ func c38PrevSet(r *core.Report, p *core.Prog) {
 			r.Check(ok, "C38.prev-set", s.fn+":"+need, p.Pos(fn.Pos()), "the phase is left only if "+need+"(...) holds")
 		}
 	}
+}
+
+// c38FinalSet: the miner list handed to createMagicBlock is the list that was validated
+// (min size, previous-set member): nothing is removed from it after the validation.
+func c38FinalSet(r *core.Report, p *core.Prog) {
+	r.Rule("C38.final-set", "no element is removed from the DKG miner list (delete from / replacement of SimpleNodes) on a path from there to createMagicBlock that does not cross the validating reduce (the call on that list whose call tree requires a previous-set miner)")
+	recv := "(*" + pkgMinerSC + ".MinerSmartContract)."
+	cmb := p.Func(recv + "createMagicBlock")
+	hasPrev := p.Func("(*" + pkgMinerSC + ".GlobalNode).hasPrevDKGMiner")
+	sn := p.Field(pkgMinerSC, "DKGMinerNodes", "SimpleNodes")
+	if cmb == nil || hasPrev == nil || sn == nil {
+		r.Unresolved("C38.final-set", "createMagicBlock / hasPrevDKGMiner / DKGMinerNodes.SimpleNodes")
+		return
+	}
+	n := 0
+	for _, fn := range p.FuncsIn(pkgMinerSC) {
+		if fn.Blocks == nil || isTooling(p, fn) {
+			continue
+		}
+		for _, cm := range findCallsTo(fn, cmb) {
+			var list ssa.Value
+			for _, a := range cm.Call.Args {
+				if strings.HasSuffix(core.NamedName(a.Type()), ".DKGMinerNodes") {
+					list = a
+				}
+			}
+			if list == nil {
+				r.Fail("C38.final-set", fn.String()+":list-arg", p.Pos(cm.Pos()), "createMagicBlock is not given a DKG miner list")
+				continue
+			}
+			validating := map[ssa.Instruction]bool{}
+			removing := map[ssa.Instruction]string{}
+			for _, b := range fn.Blocks {
+				for _, in := range b.Instrs {
+					switch x := in.(type) {
+					case *ssa.Call:
+						if core.CalleeName(x.Common()) == "builtin.delete" {
+							if f, rv := loadOfAnyField(x.Call.Args[0]); f == sn && canonObj(rv) == canonObj(list) {
+								removing[x] = "delete(list.SimpleNodes, …)"
+							}
+							continue
+						}
+						cal := x.Common().StaticCallee()
+						if cal == nil || cal == cmb {
+							continue
+						}
+						onList := false
+						for _, a := range x.Call.Args {
+							if canonObj(a) == canonObj(list) {
+								onList = true
+							}
+						}
+						if !onList {
+							continue
+						}
+						for _, f := range StaticClosure([]*ssa.Function{cal}, func(f *ssa.Function) bool { return f.Pkg == nil || f.Pkg.Pkg.Path() != pkgMinerSC }) {
+							if len(findCallsTo(f, hasPrev)) > 0 {
+								validating[x] = true
+							}
+						}
+					case *ssa.Store:
+						if fa, ok := x.Addr.(*ssa.FieldAddr); ok && core.FieldOf(fa) == sn && canonObj(fa.X) == canonObj(list) {
+							removing[x] = "list.SimpleNodes = …"
+						}
+					}
+				}
+			}
+			r.Check(len(validating) > 0, "C38.final-set", fn.String()+":validated", p.Pos(cm.Pos()), fmt.Sprintf("%d validating call(s) on the list before createMagicBlock", len(validating)))
+			okV, why := true, ""
+			{
+				path, _, found := core.PathQuery{Fn: fn, Barrier: func(x ssa.Instruction) bool { return validating[x] }, EdgeOK: core.FeasibleEdge,
+					Target: func(x ssa.Instruction) bool { return x == ssa.Instruction(cm) }}.Find()
+				if found {
+					okV, why = false, "createMagicBlock reachable without the validation: "+p.PathString(path)
+				}
+			}
+			r.Check(okV, "C38.final-set", fn.String()+":validation-on-every-path", p.Pos(cm.Pos()), "the list is validated on every path to createMagicBlock "+why)
+			// deterministic order
+			var rms []ssa.Instruction
+			for _, b := range fn.Blocks {
+				for _, in := range b.Instrs {
+					if _, ok := removing[in]; ok {
+						rms = append(rms, in)
+					}
+				}
+			}
+			for k, rm := range rms {
+				n++
+				path, _, found := core.PathQuery{Fn: fn, Start: rm, Barrier: func(x ssa.Instruction) bool { return validating[x] }, EdgeOK: core.FeasibleEdge,
+					Target: func(x ssa.Instruction) bool { return x == ssa.Instruction(cm) }}.Find()
+				d := removing[rm] + " is followed by the validation on every path to createMagicBlock"
+				if found {
+					d = removing[rm] + " after the last validation: the magic block is built from a list that was never checked for size and a previous-set miner: " + p.PathString(path)
+				}
+				r.Check(!found, "C38.final-set", fmt.Sprintf("%s:removal#%d", fn.String(), k+1), p.Pos(rm.Pos()), d)
+			}
+		}
+	}
+	r.Floor("C38.final-set", "removals from the DKG miner list next to createMagicBlock", n, 1)
 }
